@@ -242,6 +242,9 @@ func (g *Gen) execInstr(fr *Frame, st *State, in ssa.Instruction, r string) bool
 			vs = append(vs, fr.val(rv))
 		}
 		fr.rets = append(fr.rets, retInfo{guard: r, vals: vs, st: st})
+		if fr.top && fr.fc != nil && len(fr.fc.Returns) > 0 && g.dry == 0 {
+			g.returnClauses(fr, st, x, vs, r)
+		}
 		return false
 	case *ssa.Panic:
 		if fr.noPanic {
@@ -1166,4 +1169,37 @@ func (g *Gen) isInternalChan(v ssa.Value) bool {
 		return true
 	}
 	return false
+}
+
+// returnClauses emits the `returns` obligations of the function under contract at one return site.
+func (g *Gen) returnClauses(fr *Frame, st *State, x *ssa.Return, vs []Val, r string) {
+	fr.callIdx["return"]++
+	k := fr.callIdx["return"]
+	env := g.envFor(fr, st)
+	env.pos = x.Pos()
+	results := fr.fn.Signature.Results()
+	for i := 0; i < results.Len() && i < len(vs); i++ {
+		env.vars[fmt.Sprintf("ret%d", i)] = vs[i]
+	}
+	if len(vs) == 1 {
+		env.vars["ret"] = vs[0]
+	}
+	for _, cl := range fr.fc.Returns {
+		v, err := g.evalBool(cl.Expr, env)
+		if err != nil {
+			// a clause may mention variables that are not in scope at this return: it then must be vacuous there,
+			// i.e. its antecedent must be false; we require the clause to be of the form A ==> B and check !A.
+			if cl.Expr.Op == "bin" && cl.Expr.Name == "==>" {
+				if a, err2 := g.evalBool(cl.Expr.Args[0], env); err2 == nil {
+					g.addObligation(&Obligation{Name: fmt.Sprintf("%s.return#%d.%s.out-of-scope", fr.key, k, cl.Name), Func: fr.key, Kind: "returns", Props: cl.Props,
+						Guard: r, Goal: sNot(a), Src: cl.Src + "   [consequent not evaluable here: " + err.Error() + "]", Pos: g.posOf(x)})
+					continue
+				}
+			}
+			g.contractError(cl, fmt.Errorf("at return #%d: %v", k, err))
+			continue
+		}
+		g.addObligation(&Obligation{Name: fmt.Sprintf("%s.return#%d.%s", fr.key, k, cl.Name), Func: fr.key, Kind: "returns", Props: cl.Props,
+			Guard: r, Goal: v, Src: cl.Src, Pos: g.posOf(x)})
+	}
 }
